@@ -790,6 +790,20 @@ func TestC14(t *testing.T) {
 			sb.Conn.FragmentReads(frag)
 		}
 		b := webtrans.NewConn(nil, sb, rng.IntN(2) == 0, rbuf, 0, nil, nil, nil)
+		unwatch := func() {}
+		if rng.IntN(3) == 0 {
+			// a read limit as the engine sets on every connection: never below the longest frame
+			// of the stream, so a conformant stream is accepted whatever its total length
+			lim := int64(1)
+			for _, f := range frames {
+				lim = max(lim, int64(f.Len))
+			}
+			g := rig.NewGate()
+			g.Watch(sb)
+			b.SetReadLimit(lim + int64(rng.IntN(2)))
+			desc["read_limit"] = lim
+			unwatch = func() { g.Unwatch(sb) }
+		}
 		var got []refcodec.WTMsg
 		var rerr error
 		for {
@@ -805,6 +819,7 @@ func TestC14(t *testing.T) {
 			}
 			got = append(got, refcodec.WTMsg{Binary: typ == webtrans.BinaryMessage, Payload: p})
 		}
+		unwatch()
 		if !isCleanEOF(rerr) {
 			r.Violationf("wt-decoder-error", desc, "reader ended with %v after %d of %d messages", rerr, len(got), len(msgs))
 			continue
